@@ -1,5 +1,8 @@
 import TonicModel.Lemmas.FramingWire
+import TonicModel.Lemmas.Interceptor
 import TonicModel.Model.Interceptor
+import TonicModel.Model.RecoverError
+import TonicModel.Spec.GrpcResponse
 /-
 C03 — Requests and responses on the wire are spec-conformant gRPC.
 Body part: judged by `Spec.Framing.split`, a batch parser that shares nothing with the model.
@@ -147,11 +150,243 @@ theorem C03_trailers_only_response {ρ : Type} (dflt : ρ) (st : GStatus) (r : R
 
 end Headers
 
+
+/-! ### Synthesised responses (`RecoverError`, `Routes` fallback, generated default arm,
+interceptor rejection): every one of them is a conformant trailers-only response
+
+Theorems about `Model/RecoverError.lean` and `Model/Interceptor.lean`, judged by the independent
+oracle `Spec/GrpcResponse.lean`; tied to the code by C03's `prod …` correspondence cases. -/
+section Producers
+open HMapLite HttpLite RecoverError
+
+private theorem codeOk_codeHeaderValue (n : Nat) :
+    Spec.GrpcResponse.codeOk (Interceptor.codeHeaderValue n) = true := by
+  unfold Interceptor.codeHeaderValue
+  split <;> decide
+
+private theorem names_eq :
+    str "content-type" = Interceptor.nameContentType ∧ str "grpc-status" = Interceptor.nameGrpcStatus :=
+  ⟨rfl, rfl⟩
+
+private theorem eos_all (n : Nat) : (List.replicate (n + 1) Fr.eos).all Spec.GrpcResponse.isEos = true := by
+  simp [Spec.GrpcResponse.isEos]
+
+/-- the oracle accepts a body-less response whose headers are what `Status::into_http` writes -/
+private theorem conformant_of_headers (H : Hdrs) (c : Nat) (extra : Nat)
+    (hct : getAll Interceptor.nameContentType H = [(Interceptor.grpcContentType, false)])
+    (hgs : getAll Interceptor.nameGrpcStatus H = [(Interceptor.codeHeaderValue c, false)]) :
+    Spec.GrpcResponse.conformant
+      { status := 200, headers := H, frames := List.replicate (extra + 1) Fr.eos } = true := by
+  have h1 : Spec.GrpcResponse.contentTypeOk H = true := by
+    simp only [Spec.GrpcResponse.contentTypeOk, names_eq.1, hct]
+    decide
+  have h2 : Spec.GrpcResponse.noStatus H = false := by
+    simp [Spec.GrpcResponse.noStatus, names_eq.2, hgs]
+  have h3 : Spec.GrpcResponse.oneStatus H = true := by
+    simp only [Spec.GrpcResponse.oneStatus, names_eq.2, hgs]
+    exact codeOk_codeHeaderValue c
+  have h4 : Spec.GrpcResponse.bodyLess (List.replicate (extra + 1) Fr.eos) = true := by
+    simp [Spec.GrpcResponse.bodyLess, Spec.GrpcResponse.isEos]
+  simp [Spec.GrpcResponse.conformant, Spec.GrpcResponse.clauses, h1, h2, h3, h4]
+
+/-- **Every response `RecoverError` synthesises from a failed service stack is a conformant
+trailers-only gRPC response.**  Whatever error the stack failed with — a `Status` with any code,
+message, details and metadata (forged `content-type` / `grpc-status` metadata included), an error
+wrapping one anywhere in its source chain, an expired `Server::timeout` / `grpc-timeout`, a
+connect error, an HTTP/2 error — if `Status::try_from_error` finds a status `st` in it, the caller
+gets a response (never a panic, never the error): HTTP 200, exactly one
+`content-type: application/grpc`, exactly one `grpc-status` (the code of `st`), and an empty body
+that stays ended however often it is polled; the independent oracle accepts it. -/
+theorem C03_recovered_error_response {ρ ε : Type} (chain : ε → List Link) (e : ε) (st : GStatus)
+    (h : tryFromError (chain e) = some st) :
+    ∃ r, recoverError (ρ := ρ) chain (.error e) = .response r ∧
+      r.status = 200 ∧
+      getAll Interceptor.nameContentType r.headers = [(Interceptor.grpcContentType, false)] ∧
+      getAll Interceptor.nameGrpcStatus r.headers = [(Interceptor.codeHeaderValue st.code, false)] ∧
+      r.body = none ∧
+      ∀ (inner : ρ → Nat → List Fr) (extra : Nat),
+        bodyPolled inner r.body extra = List.replicate (extra + 1) Fr.eos ∧
+        Spec.GrpcResponse.conformant
+          { status := r.status, headers := r.headers, frames := bodyPolled inner r.body extra } = true := by
+  obtain ⟨H, hH, hct, hgs, _⟩ := Interceptor.statusIntoHttp_headers () st
+  refine ⟨{ status := 200, version := 11, headers := H, ext := [], body := none }, ?_, rfl, hct, hgs, rfl, ?_⟩
+  · simp [recoverError, h, hH]
+  · intro inner extra
+    exact ⟨rfl, conformant_of_headers H st.code extra hct hgs⟩
+
+/-- **The rest of the status travels too**: message (percent-encoded, absent iff empty), details
+(base64, absent iff empty) and every custom metadata entry whose name is not one of tonic's
+reserved names. -/
+theorem C03_recovered_error_carries_status {ρ ε : Type} (chain : ε → List Link) (e : ε) (st : GStatus)
+    (h : tryFromError (chain e) = some st) :
+    ∃ r, recoverError (ρ := ρ) chain (.error e) = .response r ∧
+      getAll Interceptor.nameGrpcMessage r.headers =
+        (if st.message.isEmpty = false then [(Interceptor.percentEncode st.message, false)] else []) ∧
+      getAll Interceptor.nameGrpcDetails r.headers =
+        (if st.details.isEmpty = false then [(B64.encode false st.details, false)] else []) ∧
+      ∀ k, k ≠ Interceptor.nameContentType → k ≠ Interceptor.nameGrpcStatus →
+        k ≠ Interceptor.nameGrpcMessage → k ≠ Interceptor.nameGrpcDetails →
+        getAll k r.headers = if k ∈ Interceptor.reservedHeaders then [] else getAll k st.metadata := by
+  obtain ⟨H, hH, _, _, hm, hd, hk⟩ := Interceptor.statusIntoHttp_headers () st
+  exact ⟨{ status := 200, version := 11, headers := H, ext := [], body := none },
+    by simp [recoverError, h, hH], hm, hd, hk⟩
+
+/-- **A response of the inner service passes through `RecoverError` unchanged** (status, version,
+headers, extensions; the body is wrapped and delegates every poll). -/
+theorem C03_recover_ok_passthrough {ρ ε : Type} (chain : ε → List Link) (res : Response ρ)
+    (inner : ρ → Nat → List Fr) (extra : Nat) :
+    ∃ r, recoverError (ε := ε) chain (.ok res) = .response r ∧
+      r.status = res.status ∧ r.version = res.version ∧ r.headers = res.headers ∧ r.ext = res.ext ∧
+      bodyPolled inner r.body extra = inner res.body extra :=
+  ⟨_, rfl, rfl, rfl, rfl, rfl, rfl⟩
+
+/-- **An error in which no status can be found stays an error** (the connection layer then
+resets the stream); nothing is invented. -/
+theorem C03_recover_unconvertible_stays_error {ρ ε : Type} (chain : ε → List Link) (e : ε)
+    (h : tryFromError (chain e) = none) :
+    recoverError (ρ := ρ) chain (.error e) = .error e := by
+  simp [recoverError, h]
+
+/-- **Which status is found**: below any number of wrapper errors of unknown type, the first
+`Status` is taken as it is, an expired timeout is CANCELLED "Timeout expired", a connect error
+is UNAVAILABLE with its text; a chain of unknown errors only yields nothing. -/
+theorem C03_try_from_error_chain (pre post : List Link) (hp : ∀ l ∈ pre, l = Link.opaque) :
+    (∀ st, tryFromError (pre ++ Link.status st :: post) = some st) ∧
+    tryFromError (pre ++ Link.timeout :: post) = some timeoutStatus ∧
+    (∀ d, tryFromError (pre ++ Link.connect d :: post) = some (connectStatus d)) ∧
+    tryFromError pre = none := by
+  induction pre with
+  | nil => exact ⟨fun _ => rfl, rfl, fun _ => rfl, rfl⟩
+  | cons l pre ih =>
+    have hl : l = Link.opaque := hp l List.mem_cons_self
+    subst hl
+    obtain ⟨a, b, c, d⟩ := ih (fun l hl => hp l (List.mem_cons_of_mem _ hl))
+    have hstep : ∀ rest, tryFromError (Link.opaque :: rest) = findStatus rest := fun _ => rfl
+    -- `tryFromError` and `findStatus` agree except on a top-level h2 error
+    have hagree : ∀ rest : List Link, (∀ l ∈ pre, l = Link.opaque) →
+        ∀ x, (x = Link.timeout ∨ (∃ st, x = Link.status st) ∨ ∃ d, x = Link.connect d) →
+        findStatus (pre ++ x :: rest) = tryFromError (pre ++ x :: rest) := by
+      intro rest hpre x hx
+      cases pre with
+      | nil => rcases hx with rfl | ⟨st, rfl⟩ | ⟨d, rfl⟩ <;> rfl
+      | cons y ys =>
+        have : y = Link.opaque := hpre y List.mem_cons_self
+        subst this; rfl
+    have hpre : ∀ l ∈ pre, l = Link.opaque := fun l hl => hp l (List.mem_cons_of_mem _ hl)
+    have hnone : findStatus pre = tryFromError pre := by
+      cases pre with
+      | nil => rfl
+      | cons y ys =>
+        have : y = Link.opaque := hpre y List.mem_cons_self
+        subst this; rfl
+    refine ⟨fun st => ?_, ?_, fun dd => ?_, ?_⟩
+    · rw [List.cons_append, hstep, hagree post hpre _ (Or.inr (Or.inl ⟨st, rfl⟩))]; exact a st
+    · rw [List.cons_append, hstep, hagree post hpre _ (Or.inl rfl)]; exact b
+    · rw [List.cons_append, hstep, hagree post hpre _ (Or.inr (Or.inr ⟨dd, rfl⟩))]; exact c dd
+    · rw [hstep, hnone]; exact d
+
+/-- **An expired server timeout is answered with a conformant trailers-only CANCELLED** — the
+instance of `C03_recovered_error_response` that `Server::timeout` / `grpc-timeout` produce. -/
+theorem C03_timeout_response {ρ ε : Type} (chain : ε → List Link) (e : ε) (pre post : List Link)
+    (hp : ∀ l ∈ pre, l = Link.opaque) (hc : chain e = pre ++ Link.timeout :: post) :
+    ∃ r, recoverError (ρ := ρ) chain (.error e) = .response r ∧ r.status = 200 ∧
+      getAll Interceptor.nameContentType r.headers = [(Interceptor.grpcContentType, false)] ∧
+      getAll Interceptor.nameGrpcStatus r.headers = [(str "1", false)] ∧ r.body = none := by
+  have h : tryFromError (chain e) = some timeoutStatus := by
+    rw [hc]; exact (C03_try_from_error_chain pre post hp).2.1
+  obtain ⟨r, h1, h2, h3, h4, h5, _⟩ := C03_recovered_error_response (ρ := ρ) chain e timeoutStatus h
+  exact ⟨r, h1, h2, h3, h4, h5⟩
+
+/-- **Every trailers-only response written by `Status::into_http`** — the interceptor's
+rejection, `Routes`' fallback, `RecoverError` — is accepted by the oracle, for every status. -/
+theorem C03_status_into_http_conformant (st : GStatus) (extra : Nat) :
+    ∃ r, Interceptor.statusIntoHttp () st = some r ∧
+      Spec.GrpcResponse.conformant
+        { status := r.status, headers := r.headers, frames := List.replicate (extra + 1) Fr.eos } = true := by
+  obtain ⟨H, hH, hct, hgs, _⟩ := Interceptor.statusIntoHttp_headers () st
+  exact ⟨_, hH, conformant_of_headers H st.code extra hct hgs⟩
+
+/-- **An interceptor's rejection is a conformant trailers-only response** (`InterceptedService`
+with the rejecting status `st`). -/
+theorem C03_interceptor_rejection_conformant {ρ ε : Type} (st : GStatus) (extra : Nat) :
+    ∃ r, Interceptor.rejectOutcomeWith Interceptor.addHeader (ρ := ρ) (ε := ε) st = .response r ∧
+      r.body = Interceptor.RespBody.empty ∧
+      Spec.GrpcResponse.conformant
+        { status := r.status, headers := r.headers, frames := List.replicate (extra + 1) Fr.eos } = true := by
+  obtain ⟨H, hH, hct, hgs, _⟩ := Interceptor.statusIntoHttp_headers () st
+  have hH' : Interceptor.statusIntoHttpWith Interceptor.addHeader () st =
+      some { status := 200, version := 11, headers := H, ext := [], body := () } := hH
+  refine ⟨{ status := 200, version := 11, headers := H, ext := [], body := Interceptor.RespBody.empty }, ?_, rfl, ?_⟩
+  · simp [Interceptor.rejectOutcomeWith, hH']
+  · exact conformant_of_headers H st.code extra hct hgs
+
+/-- **Unknown paths and unknown methods are answered with a conformant trailers-only
+UNIMPLEMENTED**: `Routes`' fallback (also after axum added `content-length: 0`) and the default
+arm of a generated server. -/
+theorem C03_unimplemented_responses (extra : Nat) :
+    (∃ r, routesFallback = some r ∧
+      Spec.GrpcResponse.conformant
+        { status := r.status, headers := r.headers, frames := List.replicate (extra + 1) Fr.eos } = true ∧
+      Spec.GrpcResponse.conformant
+        { status := (axumEmpty r).status, headers := (axumEmpty r).headers,
+          frames := List.replicate (extra + 1) Fr.eos } = true ∧
+      getAll Interceptor.nameGrpcStatus r.headers = [(str "12", false)]) ∧
+    Spec.GrpcResponse.conformant
+      { status := generatedUnimplemented.status, headers := generatedUnimplemented.headers,
+        frames := List.replicate (extra + 1) Fr.eos } = true ∧
+    Spec.GrpcResponse.conformant
+      { status := (axumEmpty generatedUnimplemented).status, headers := (axumEmpty generatedUnimplemented).headers,
+        frames := List.replicate (extra + 1) Fr.eos } = true ∧
+    getAll Interceptor.nameGrpcStatus generatedUnimplemented.headers = [(str "12", false)] := by
+  have hb : Spec.GrpcResponse.bodyLess (List.replicate (extra + 1) Fr.eos) = true := by
+    simp [Spec.GrpcResponse.bodyLess, Spec.GrpcResponse.isEos]
+  have key : ∀ (s : Nat) (H : Hdrs), s = 200 → Spec.GrpcResponse.contentTypeOk H = true →
+      Spec.GrpcResponse.noStatus H = false → Spec.GrpcResponse.oneStatus H = true →
+      Spec.GrpcResponse.conformant { status := s, headers := H, frames := List.replicate (extra + 1) Fr.eos } = true := by
+    intro s H hs h1 h2 h3
+    subst hs
+    simp [Spec.GrpcResponse.conformant, Spec.GrpcResponse.clauses, h1, h2, h3, hb]
+  refine ⟨⟨_, rfl, ?_, ?_, by decide⟩, ?_, ?_, by decide⟩
+  all_goals exact key _ _ (by decide) (by decide) (by decide) (by decide)
+
+/-- the seeded defect C03c as a model: `RecoverError` writing the status with `add_header` into a
+fresh `Response::new` (no content-type) is rejected by the oracle, for every status.  (Witness
+that the oracle clause is not vacuous.) -/
+theorem C03_recover_without_into_http_fails (st : GStatus) (extra : Nat) :
+    ∃ H, Interceptor.addHeader st [] = some H ∧
+      Spec.GrpcResponse.conformant
+        { status := 200, headers := H, frames := List.replicate (extra + 1) Fr.eos } = false := by
+  obtain ⟨H, hH, hget⟩ := Interceptor.addHeader_getAll st []
+  refine ⟨H, hH, ?_⟩
+  obtain ⟨n1, n2, n3, n4, n5, n6⟩ := Interceptor.names_ne
+  have hct : getAll Interceptor.nameContentType H = [] := by
+    rw [hget Interceptor.nameContentType]
+    have hmem : Interceptor.nameContentType ∈ Interceptor.reservedHeaders := by decide
+    have : contains Interceptor.nameContentType (Interceptor.statusMetadataHeaders st) = false := by
+      rw [contains_eq_false_iff, Interceptor.statusMetadataHeaders_getAll]
+      simp [hmem]
+    simp [n4, n5, n6, getAll_extend, this, getAll_nil]
+  have : Spec.GrpcResponse.contentTypeOk H = false := by
+    simp [Spec.GrpcResponse.contentTypeOk, names_eq.1, hct]
+  simp [Spec.GrpcResponse.conformant, Spec.GrpcResponse.clauses, this]
+
+end Producers
+
 /- Non-vacuity: a schedule with a source error in the middle. -/
 def idCodec : Codec Bytes := { ser := id, de := some, deErr := 13, cz := fun _ b => b, dz := fun _ b => some b }
 
 example : Enc.run idCodec { comp := none, yieldThr := 0, maxSize := none, server := true } 5 Enc.init
       [.item [1, 2], .err ⟨5, .user⟩, .item [3]]
     = [.data [0, 0, 0, 0, 2, 1, 2], .trailers ⟨5, .user⟩, .none, .none, .none] := by decide
+
+/- Non-vacuity of the producer theorems: a wrapped status with forged metadata is found and
+answered; a chain of unknown errors is not. -/
+open HMapLite HttpLite RecoverError in
+example : tryFromError [.opaque, .opaque, .status ⟨7, str "no", [1], [(str "content-type", (str "text/html", false))]⟩, .timeout]
+    = some ⟨7, str "no", [1], [(str "content-type", (str "text/html", false))]⟩ := by decide
+open RecoverError in
+example : tryFromError [.opaque, .h2 8 [], .opaque] = none := by decide
+open RecoverError in
+example : (tryFromError [.h2 8 []]).map (·.code) = some 1 := by decide
 
 end C03
